@@ -12,7 +12,13 @@ Correspondence / testing (NOT proof), this file:
     decoder calls exit(1) on an underrun, so every such call runs in a forked child);
   * per input: decode_model(encode(w)) == w, decode_model(reorder_encode(v)) == reorder_model(v),
     len(stream) % 16 == 0, out-of-range weights raise;
-  * thorough tier: the same inputs through an ASan/UBSan build of /repo's C sources (supporting evidence).
+  * thorough tier: the same inputs through an ASan/UBSan build of /repo's C sources (supporting evidence);
+  * compiled networks (D2, both tiers): every (core, depth-slice) weight stream in the output file of the shared
+    compilation plan is decoded with the extracted decoder model and compared with the operator's source weights
+    (read from the INPUT .tflite) put through the extracted traversal model with the parameters the hardware uses:
+    core k owns channels k, k+ncores, ... of the slice, block depth = its share of the emitted OFM_BLK_DEPTH
+    register, traversal / dilation / precision from the emitted KERNEL_STRIDE / IFM_PRECISION registers,
+    micro-blocks from the accelerator table written down here.
 The palette search / GRC parameter search of the encoder and the memory safety of the C code are not modelled.
 """
 import collections
@@ -667,6 +673,320 @@ def reorder_batch(rjobs, base, rng, table, skmax, use_model, bad, diffs, cnt, no
     return valid_n, evals
 
 
+# ------------------------------------------------------------------------------------------ compiled networks (D2)
+# hardware facts written down independently of the tree: (cores, ofm micro-block depth, ifm micro-block depth)
+HW = {"ethos-u55-32": (1, 4, 8), "ethos-u55-64": (1, 8, 8), "ethos-u55-128": (1, 8, 8), "ethos-u55-256": (1, 8, 8),
+      "ethos-u65-256": (1, 8, 8), "ethos-u65-512": (2, 8, 8)}
+R_OP_CONV, R_OP_DEPTHWISE = 2, 3
+R_IFM_DEPTH_M1, R_IFM_PRECISION, R_OFM_BLK_DEPTH_M1, R_KERNEL_WIDTH_M1, R_KERNEL_HEIGHT_M1, R_KERNEL_STRIDE = 260, 261, 279, 288, 289, 290
+
+
+def parse_op_events(flat):
+    """flat output of the extracted Npu.decode_stream -> [(code, param, {register: value})] of the operation events"""
+    if not flat or flat[0] != 1:
+        return None
+    i, n, evs = 1, len(flat), []
+    while i < n:
+        t = flat[i]
+        if t == 1:
+            cnt = flat[i + 3]
+            kv = flat[i + 4:i + 4 + 2 * cnt]
+            evs.append((flat[i + 1], flat[i + 2], dict(zip(kv[0::2], kv[1::2]))))
+            i += 4 + 2 * cnt
+        elif t == 3:
+            i += 2
+        else:
+            i += 3
+    return evs
+
+
+def source_volume(summ, name):
+    """the OHWI volume of zero-point corrected source weights of the input model's constant whose name the compiler's
+    weight tensor name starts with; (volume as nested numpy array, tflite opcode) or (None, reason)"""
+    import numpy as np
+    best = None
+    for si, sg in enumerate(summ["subgraphs"]):
+        for t in sg["tensors"]:
+            nm = t["name"]
+            if nm and t["data_len"] and (name == nm or name.startswith(nm + "_")) and (best is None or len(nm) > len(best[2]["name"])):
+                best = (si, sg, t)
+    if best is None:
+        return None, "no constant of the input model carries the name (weights made by the compiler)"
+    si, sg, t = best
+    users = [o for o in sg["operators"] if len(o["inputs"]) > 1 and o["inputs"][1] == t["idx"]]
+    kinds = set(o["opcode"] for o in users)
+    if len(kinds) != 1 or not kinds <= {"CONV_2D", "DEPTHWISE_CONV_2D", "FULLY_CONNECTED", "TRANSPOSE_CONV"}:
+        return None, "constant is not the weight operand of one kind of convolution (%s)" % sorted(kinds)
+    kind = kinds.pop()
+    dt = {"INT8": np.int8, "UINT8": np.uint8, "INT16": np.int16}.get(t["type"].upper())
+    if dt is None:
+        return None, "weight type %s" % t["type"]
+    a = np.frombuffer(summ["_bufs"][t["buffer"]], dtype=dt).astype(np.int64).reshape(t["shape"])
+    zps = (t["quant"] or {}).get("zero_point") or [0]
+    if kind == "FULLY_CONNECTED":
+        if a.ndim != 2:
+            return None, "fully connected weights of rank %d" % a.ndim
+        v = a.reshape(a.shape[0], 1, 1, a.shape[1])
+    elif kind == "DEPTHWISE_CONV_2D":
+        if a.ndim != 4 or a.shape[0] != 1:
+            return None, "depthwise weights of shape %r" % (t["shape"],)
+        v = np.transpose(a, (3, 1, 2, 0))
+    else:
+        if a.ndim != 4:
+            return None, "weights of rank %d" % a.ndim
+        v = a[:, ::-1, ::-1, :] if kind == "TRANSPOSE_CONV" else a
+    if len(zps) == 1:
+        v = v - zps[0]
+    elif len(zps) == v.shape[0]:
+        v = v - np.array(zps, dtype=np.int64).reshape(-1, 1, 1, 1)
+    else:
+        return None, "%d zero points for %d output channels" % (len(zps), v.shape[0])
+    return v, kind
+
+
+def np_hardware_order(np, c):
+    """source positions of a flat OHWI volume sorted by the documented nesting (py_order_key, vectorised)"""
+    ofd, kh, kw, ifd, oud, iud, obd, dw, pk, bd, dh, dw_ = c
+    p = np.arange(ofd * kh * kw * ifd, dtype=np.int64)
+    iz = p % ifd
+    wx = (p // ifd) % kw
+    wy = (p // (ifd * kw)) % kh
+    oz = p // (ifd * kw * kh)
+    ibd = 16 if (pk or bd == 16) else 32
+    sub_w = np.minimum(kw - (wx // dw_) * dw_, dw_)
+    ro, ri = oz % obd, iz % ibd
+    iub = ri // iud
+    zero = np.zeros_like(p)
+    keys = [oz // obd, iz // ibd, wy // dh, wx // dw_, iub if pk else zero, ro // oud, (wy % dh) * sub_w + wx % dw_, zero if pk else iub, ro % oud, ri % iud]
+    return np.lexsort(keys[::-1])
+
+
+def embeds_with_zero_padding(src, dec):
+    """`dec` is `src` with zeros inserted (the property's "only zero padding added"): same non-zero values in the same
+    order, and between two of them at least as many zeros as the source has; returns None or the reason"""
+    def gaps(l):
+        nz, g, c = [], [], 0
+        for x in l:
+            if x:
+                nz.append(x)
+                g.append(c)
+                c = 0
+            else:
+                c += 1
+        g.append(c)
+        return nz, g
+    a, ga = gaps(src)
+    b_, gb = gaps(dec)
+    if a != b_:
+        i = next((i for i, (x, y) in enumerate(zip(a, b_)) if x != y), min(len(a), len(b_)))
+        return "non-zero weight number %d of the stream is %s, the hardware order has %s there (%d / %d non-zero weights)" % (
+            i, b_[i] if i < len(b_) else "missing", a[i] if i < len(a) else "nothing", len(b_), len(a))
+    for i, (x, y) in enumerate(zip(ga, gb)):
+        if y < x:
+            return "only %d zeros before non-zero weight number %d, the source has %d zero weights there" % (y, i, x)
+    return None
+
+
+def d2_jobs(tier):
+    import compiles
+    n = 64 if tier == "quick" else 1600
+    jobs = compiles.plan([], n, vlib.seed(), tag="d2", capture=True)
+    # two-core compilations with deep convolutions beyond the few of the shared plan: the per-core share of the OFM block
+    # only matters there (several OFM blocks per core and several IFM blocks / part-kernel-first / sub-kernels)
+    rng = random.Random("c07/d2/%s" % vlib.seed())
+    extra = []
+    for i in range(8 if tier == "quick" else 160):
+        args = ["--accelerator-config", "ethos-u65-512"]
+        m = i % 4
+        if m == 1:
+            args += ["--config", compiles.CONFIG_INI, "--system-config", "Ethos_U65_High_End", "--memory-mode", "Dedicated_Sram"]
+        elif m == 2:
+            args += ["--config", compiles.CONFIG_INI, "--system-config", "Ethos_U65_Embedded", "--memory-mode", "Shared_Sram"]
+        elif m == 3:
+            args += ["--config", compiles.CONFIG_INI, "--system-config", "Ethos_U65_High_End", "--memory-mode", "Sram_Only"]
+        args += ["--optimise", "Size" if i % 2 else "Performance"]
+        if rng.random() < 0.4:
+            args += ["--arena-cache-size", str(rng.choice([16384, 65536, 262144]))]
+        extra.append({"family": ["weights_heavy", "conv_chain_big", "weights_heavy", "conv_chain"][i % 4], "seed": "c07u-%s-%d" % (vlib.seed(), i),
+                      "args": args, "capture": True})
+    return jobs + extra
+
+
+def d2_level(tier, okx, bad, diffs, nontrivial):
+    """every (core, depth-slice) weight stream of the compiled models against the source weights in hardware order"""
+    import numpy as np
+    import artefacts
+    import compiles
+    import tflsum
+    d2 = collections.Counter()
+    info = {"skipped": collections.Counter(), "by_accelerator": collections.Counter(), "by_traversal": collections.Counter()}
+    okv, vlog = vlib.build_extraction()     # build/velaverif: Npu.decode_stream (register snapshots of the emitted stream)
+    if not (okx and okv):
+        diffs.append(({"correspondence": "d2 model binaries"}, {"mlw": okx, "velaverif": okv, "log": vlog[-300:]}))
+        return {"error": "extracted models not built"}
+    jobs = d2_jobs(tier)
+    results = compiles.run_all(jobs, timeout=900)
+    items = []      # one per judged weight stream
+    streams_words, streams_meta = [], []
+    arts = []
+    for r in results:
+        if r["status"] != "ok":
+            d2["compilations_not_ok"] += 1
+            continue
+        art = artefacts.load(r)
+        if not art or not art["capture"]:
+            continue
+        d2["compilations"] += 1
+        for k, stream in enumerate(art["capture"]["streams"]):
+            streams_words.append([int(w) for w in stream["words"]])
+            streams_meta.append((len(arts), k))
+        arts.append((r, art))
+    evs_all = models.run_parallel("decode_stream", streams_words) if streams_words else []
+    evs_of = {m: parse_op_events(o) for m, o in zip(streams_meta, evs_all)}
+    cfg_cache = {}
+    for ai, (r, art) in enumerate(arts):
+        src_path = r["job"].get("tflite") or os.path.join(r["job"]["out_dir"], "model.tflite")
+        try:
+            summ = tflsum.summarise(src_path)
+        except Exception as ex:
+            info["skipped"]["input model unreadable: %s" % type(ex).__name__] += 1
+            continue
+        for k, stream in enumerate(art["capture"]["streams"]):
+            acc = stream["accelerator"]
+            nc, oud, iud = HW[acc]
+            match = [j for j, n2 in enumerate(art["npu"]) if n2["words"] == stream["words"]]
+            flash = bytes(art["npu"][match[0]]["flash"]) if match and art["npu"][match[0]]["flash"] is not None else None
+            evs = evs_of.get((ai, k))
+            if evs is None or len(evs) != len(stream["ops"]):
+                info["skipped"]["emitted stream does not decode to one operation event per NPU operation"] += 1
+                diffs.append(({"correspondence": "d2 operation events", "net": r.get("net_name")}, {"events": None if evs is None else len(evs), "ops": len(stream["ops"])}))
+                continue
+            seen = set()
+            for opi, (op, ev) in enumerate(zip(stream["ops"], evs)):
+                cmd = op.get("cmd")
+                if not (cmd and cmd.get("kind") == "stripe" and cmd.get("weight") and "weights" in op["api"]):
+                    continue
+                wsrc = cmd["weight_src"]
+                tk = (wsrc["name"], wsrc["address"])
+                if tk in seen:
+                    continue
+                seen.add(tk)
+                d2["weight_tensors"] += 1
+                code, _, regs = ev
+                if code not in (R_OP_CONV, R_OP_DEPTHWISE):
+                    info["skipped"]["operation event %d is not a convolution" % code] += 1
+                    continue
+                if flash is None or wsrc["mem_type"] != "Permanent_NPU":
+                    info["skipped"]["weights not in the read-only tensor of the output file"] += 1
+                    continue
+                vol, kind = source_volume(summ, wsrc["name"])
+                if vol is None:
+                    info["skipped"][kind] += 1
+                    continue
+                ks = regs.get(R_KERNEL_STRIDE, 0)
+                pk, dil_x, dil_y = (ks >> 2) & 1, 1 + ((ks >> 3) & 1), 1 + ((ks >> 4) & 1)
+                kh = regs.get(R_KERNEL_HEIGHT_M1, 0) // dil_y + 1
+                kw = regs.get(R_KERNEL_WIDTH_M1, 0) // dil_x + 1
+                bits = 8 * (1 << ((regs.get(R_IFM_PRECISION, 0) >> 2) & 3))
+                obd = regs.get(R_OFM_BLK_DEPTH_M1, 0) + 1
+                dw = int(code == R_OP_DEPTHWISE)
+                ofd, vh, vw, ifd = vol.shape
+                if (vh, vw) != (kh, kw) or (not dw and ifd != regs.get(R_IFM_DEPTH_M1, 0) + 1) or (dw and ifd != 1) or \
+                        dw != int(kind == "DEPTHWISE_CONV_2D"):
+                    info["skipped"]["operator rewritten by the graph optimiser, e.g. fixup_strided_conv folding the stride into the IFM depth "
+                                    "(emitted kernel / IFM depth differ from the source weights; not judged)"] += 1
+                    if len(info.setdefault("rewritten_examples", [])) < 4:
+                        info["rewritten_examples"].append("kernel %dx%d ifm %d %s, source weights %r %s" % (
+                            kh, kw, regs.get(R_IFM_DEPTH_M1, 0) + 1, "depthwise" if dw else "conv", list(vol.shape)[1:], kind))
+                    continue
+                rs = sorted(([rr[0][0], rr[0][1]] + rr[1:] for rr in cmd["encoded_ranges"]), key=lambda x: (x[1], x[0]))
+                starts = sorted(set(x[1] for x in rs))
+                if not rs or starts[-1] >= ofd:
+                    info["skipped"]["depth slices beyond the source tensor (split operator)"] += 1
+                    continue
+                d2["weight_tensors_judged"] += 1
+                for core, d0, off, sbytes, woff, wbytes, _idx in rs:
+                    d1 = starts[starts.index(d0) + 1] if starts.index(d0) + 1 < len(starts) else ofd
+                    chans = list(range(d0 + core, d1, nc))
+                    if not chans:
+                        continue
+                    if tier == "quick" and nc == 1 and wbytes > 150000:
+                        info["skipped"]["quick tier: single-core stream above 150000 bytes (judged in the thorough tier)"] += 1
+                        continue
+                    a0 = wsrc["address"] + off + woff
+                    raw = flash[a0:a0 + wbytes]
+                    cfg = (len(chans), kh, kw, 1 if dw else ifd, oud, iud, (obd + nc - 1 - core) // nc, dw, pk, bits, 8 // dil_y, 8 // dil_x)
+                    items.append(dict(r=r, stream=k, op=opi, op_name=cmd.get("primary_op_name"), op_type=cmd.get("primary_op"), tensor=wsrc["name"],
+                                      acc=acc, nc=nc, core=core, d0=d0, d1=d1, cfg=cfg, raw=raw, nbytes=wbytes, complete=len(raw) == wbytes,
+                                      flat=np.ascontiguousarray(vol[chans]).reshape(-1), obd=obd))
+                    cfg_cache.setdefault(cfg, None)
+    items.sort(key=lambda it: -it["nbytes"])
+    if items:
+        cfgs = list(cfg_cache)
+        for c, o in zip(cfgs, models.run_parallel("reorder", [list(c) for c in cfgs], exe_name="mlw")):
+            cfg_cache[c] = o
+        decs = models.run_parallel("decode", [[0] + list(it["raw"]) for it in items], exe_name="mlw")
+    else:
+        decs = []
+    samples = []
+    for it, dec in zip(items, decs):
+        d2["weight_streams"] += 1
+        c = it["cfg"]
+        r = it["r"]
+        info["by_accelerator"][it["acc"]] += 1
+        info["by_traversal"]["depthwise" if c[7] else "part_kernel_first" if c[8] else "depth_first"] += 1
+        several = c[0] > c[6]
+        sens = several and (c[7] == 0) and ((c[8] and c[3] > 8) or (not c[8] and c[3] > (16 if c[9] == 16 else 32)) or c[1] > c[10] or c[2] > c[11] or c[6] % c[4])
+        if it["nc"] > 1:
+            d2["two_core_streams"] += 1
+            d2["two_core_streams_with_several_ofm_blocks"] += several
+            d2["two_core_streams_where_the_block_share_changes_the_order"] += bool(sens)
+        where = dict(net=r.get("net_name"), seed=r["job"]["seed"], args=r["job"]["args"], model=r["job"].get("tflite") or r["job"].get("family"),
+                     accelerator=it["acc"], operator=it["op_name"], operator_type=it["op_type"], weight_tensor=it["tensor"], core=it["core"],
+                     depth_slice=[it["d0"], it["d1"]], emitted_ofm_block_depth=it["obd"],
+                     hardware_cfg=dict(zip(["ofm_channels_of_core", "kh", "kw", "ifm_depth", "ofm_ublock", "ifm_ublock", "ofm_block_depth_of_core",
+                                            "depthwise", "part_kernel", "ifm_bits", "decomp_h", "decomp_w"], c)),
+                     replay_cmd="cd /verif && /venv/bin/python tools/vela_worker.py %s/job.json" % r["job"]["out_dir"])
+        key = {"kind": "compiled_stream_not_in_hardware_order", "ncores": it["nc"]}
+        why = None
+        if not it["complete"] or it["nbytes"] % 16:
+            why = "weight stream of %d bytes is not a 16-byte multiple inside the read-only tensor" % it["nbytes"]
+        elif dec[0] != 1:
+            why = "the reference decoder model does not decode the weight stream (status %r)" % dec[:2]
+        else:
+            order = cfg_cache[c]
+            n = len(it["flat"])
+            if not cfg_valid(list(c)):
+                info["skipped"]["configuration outside the traversal theorem (not judged by the oracle)"] += 1
+            else:
+                why = embeds_with_zero_padding(it["flat"][np_hardware_order(np, c)].tolist(), dec[1:])
+            oa = np.array(order, dtype=np.int64)
+            want = np.where((oa >= 0) & (oa < n), it["flat"][np.clip(oa, 0, n - 1)], 0).tolist()
+            if why is None and want != dec[1:]:
+                i = next((i for i, (x, y) in enumerate(zip(want, dec[1:])) if x != y), min(len(want), len(dec) - 1))
+                diffs.append(({"correspondence": "compiled stream vs Reorder model (padding positions)", "net": r.get("net_name")},
+                              dict(where, first_difference=i, model=want[max(0, i - 4):i + 8], decoded=dec[1:][max(0, i - 4):i + 8],
+                                   model_len=len(want), decoded_len=len(dec) - 1)))
+            elif why is not None and want == dec[1:]:
+                diffs.append(({"correspondence": "oracle vs Reorder model on a compiled stream", "net": r.get("net_name")}, dict(where, oracle=why)))
+            if why is not None:
+                i = next((i for i, (x, y) in enumerate(zip(want, dec[1:])) if x != y), None)
+                where.update(first_difference_from_traversal_model=i, decoded_len=len(dec) - 1, model_len=len(want),
+                             decoded_there=dec[1:][max(0, (i or 0) - 2):(i or 0) + 10], hardware_order_there=want[max(0, (i or 0) - 2):(i or 0) + 10])
+        if why:
+            bad.append((key, dict(where, reason=why),
+                        "compiled model %s (%s): weight stream of operator %s, core %d, OFM slice [%d, %d) does not decode to the source weights in "
+                        "hardware block-traversal order (per-core OFM block depth %d of the emitted %d): %s" % (
+                            r.get("net_name"), it["acc"], it["op_name"], it["core"], it["d0"], it["d1"], c[6], it["obd"], why)))
+        nontrivial.add(("d2", it["acc"], c))
+        if len(samples) < 3 and it["nc"] > 1 and several:
+            samples.append({k_: where[k_] for k_ in ("net", "accelerator", "operator", "core", "depth_slice", "emitted_ofm_block_depth", "hardware_cfg")})
+    out = dict(d2)
+    out.update(skipped=dict(info["skipped"]), streams_by_accelerator=dict(info["by_accelerator"]), streams_by_traversal=dict(info["by_traversal"]),
+               samples=samples, jobs=len(jobs), rewritten_examples=info.get("rewritten_examples", []))
+    return out
+
+
 # ------------------------------------------------------------------------------------------ the check
 def run(tier):
     t0 = time.time()
@@ -835,6 +1155,17 @@ def run(tier):
                     {"first": {"value": v, "through": entry[api], "observed": txt, "volume": vol}},
                     "in-range weight %d given to %s is rejected or not encoded (%s)" % (v, entry[api], txt[:80])))
 
+    # ---- compiled networks: every weight stream of the output files against the source weights in hardware order
+    marks.append(("function level", time.time() - t0))
+    try:
+        d2 = d2_level(tier, okx and not model_err, bad, diffs, nontrivial)
+    except Exception as ex:
+        import traceback
+        d2 = {"error": repr(ex), "traceback": traceback.format_exc()[-1500:]}
+        diffs.append(({"correspondence": "d2 level failed"}, d2))
+    evals += d2.get("weight_streams", 0)
+    marks.append(("d2", time.time() - t0))
+
     # ---- thorough: sanitizer build as supporting evidence
     san = {}
     if tier == "thorough":
@@ -860,6 +1191,7 @@ def run(tier):
         "samples": [{"generator": n_, "weights": w[:12], "stream_bytes": len(s) if s else None} for (n_, w), s in list(zip(seqs, streams))[5:8]] +
                    [{"reorder_cfg": cfg_vector(j, table, skmax), "api": j["api"], "layout": j["layout"]} for j in rjobs[:2]],
         "sanitizer": san,
+        "compiled_networks(D2)": d2,
         "note_raw_binding": "informational: the internal binding mlw_codec.reorder_encode itself does not range-check (mlw_encode.c:859 is under "
                             "#ifndef NDEBUG and setup.py builds with -DNDEBUG); out-of-range values are therefore never passed to it by this check; the "
                             "property is observed at api.npu_encode_weights / weight_compressor.encode_weights (guard added by repository commit fa734f2) "
